@@ -1,7 +1,11 @@
 """C14 -- occlusion/mismatch filling touches only flagged pixels, fills from valid ones.
 
 T-gen : Gen/ValConst.v (pandora/constants.py) re-checked equal to the model's constants; Gen/Callbacks.v
-        (ast of PandoraMachine.validation_run) re-checked equal to the call structure of validation_interp_run.
+        (ast of PandoraMachine.validation_run) re-checked equal to the call structure of validation_interp_run;
+        Gen/InterpKernels.v (ast of the four numba kernels, of find_valid_neighbors and of the two
+        interpolated_disparity methods: pixel bodies and call plans as Gallina) re-proved equal, on every pixel of
+        every map, to the pixel functions of Model/Interp.v (Proofs/InterpGenP.v), the headline theorems restated
+        on the generated definitions (C14_gen_*).
 T-corr: Model/Interp.v (extracted, fid 1) against the real
         validation.AbstractInterpolation(interpolated_disparity=m).interpolated_disparity(ds)
         (compiled numba kernels, public entry point), exact comparison of the disparity map
@@ -20,7 +24,7 @@ import xarray as xr
 
 from harness import core
 
-GEN = ["gen_valconst", "gen_callbacks"]
+GEN = ["gen_valconst", "gen_callbacks", "gen_interp_kernels"]
 EXTRACT_FILES = ["X14"]
 DRIVERS = ["x14"]
 RULE = ("a case = a disparity map (1..7 x 1..9, values k/4, invalid_disparity -9999 or NaN) + a validity mask laid "
@@ -33,10 +37,14 @@ RULE = ("a case = a disparity map (1..7 x 1..9, values k/4, invalid_disparity -9
         "non-trivial when some mask changes between cross-check and final")
 ASSUMES = [
     "numba/numpy primitives used by the kernels (np.argmax of booleans, np.nanmedian, np.argsort with NaN last and "
-    "insertion sort below 15 elements, int() truncation, uint16 += / -=) are hand-modelled and validated by this "
-    "correspondence on every run",
-    "each kernel iteration writes only its own pixel of the output copies and reads only the input arrays (visible "
-    "in the source: out_disp[col,row]/out_val[col,row] vs disp/valid) -- the model is the per-pixel function",
+    "insertion sort below 15 elements, int() truncation, Python index wrap-around / slice clipping, uint16 += / -= / "
+    "|=, float32 buffers holding the float32 disparities exactly) are hand-modelled (Model/Interp.v list functions, "
+    "Model/InterpPrims.v) and validated by this correspondence on every run; how the kernels combine them is "
+    "regenerated from the source (Gen/InterpKernels.v)",
+    "each kernel iteration writes only its own pixel of the output copies and reads only the input arrays: checked "
+    "on the source by translator/gen_interp_kernels.py (outputs touched only as out_x[col, row], no store into the "
+    "inputs, loop nest and np.copy prelude as expected), the kernel = per-pixel function glue (kernel_disp / "
+    "kernel_val) is hand-written",
     "valid pixels hold finite disparities (NaN only on invalid pixels) for the value-range theorem "
     "(C14_filled_between_min_max_valid, hypothesis valid_range)",
     "no pixel carries bit 8 and bit 9 together (hypothesis never_both of the clause theorems and of "
@@ -47,7 +55,10 @@ ASSUMES = [
     "states on the border are used for the correspondence only",
 ]
 TRUSTED = ["Gen/ValConst.v produced by translator/gen_valconst.py from the imported pandora.constants",
-           "Gen/Callbacks.v produced by translator/gen_callbacks.py from the ast of state_machine.py"]
+           "Gen/Callbacks.v produced by translator/gen_callbacks.py from the ast of state_machine.py",
+           "Gen/InterpKernels.v produced by translator/gen_interp_kernels.py from the ast of interpolated_disparity.py "
+           "and img_tools.py (statement-by-statement translation, fail closed), read with the semantics of "
+           "Model/InterpPrims.v and Lib/FloatQ.v"]
 
 INV = 0b01111000011
 OCC, MIS, FOCC, FMIS = 256, 512, 16, 32
@@ -548,7 +559,20 @@ def run(ctx):
     ctx.gen_obligations = ["Gen.ValConst constants = Model constants (C14_constants_match, reflexivity on the "
                            "regenerated file)",
                            "Gen.Callbacks validation_run call structure = the one validation_interp_run models "
-                           "(C14_validation_run_calls, reflexivity on the regenerated file)"]
+                           "(C14_validation_run_calls, reflexivity on the regenerated file)",
+                           "Gen.InterpKernels.occ_mc_pixel = Model.Interp.occ_mc_pixel on every pixel of every map "
+                           "(C14_gen_occ_mc_eq, re-proved on the regenerated file)",
+                           "Gen.InterpKernels.mis_mc_pixel = Model.Interp.mis_mc_pixel on every pixel of every map, incl. "
+                           "the float direction table = the half-unit table, int() truncation, range(1, max_path_length), "
+                           "NaN-initialised buffer, all-NaN guard (C14_gen_mis_mc_eq)",
+                           "Gen.InterpKernels.find_valid_neighbors = Model.Interp.find_valid_neighbors, and the direction "
+                           "tables of both sgm kernels = dirs8 (C14_gen_fvn_eq)",
+                           "Gen.InterpKernels.occ_sgm_pixel = Model.Interp.occ_sgm_pixel, incl. argsort(|v|)[1] and its NaN "
+                           "guard (C14_gen_occ_sgm_eq, C14_gen_argsort_second)",
+                           "Gen.InterpKernels.mis_sgm_pixel = Model.Interp.mis_sgm_pixel, incl. the 3x3 occlusion test on "
+                           "`valid` with clipped slices (C14_gen_mis_sgm_eq)",
+                           "Gen.InterpKernels call plans: mc-cnn = occlusion, mismatch, mask_border; sgm = mismatch, "
+                           "occlusion (C14_gen_plans); hence ginterp = interp (C14_gen_interp_eq) and the C14_gen_* clauses"]
     if getattr(ctx, "replay_case", None) is not None:
         if ctx.replay_case.get("stream") == "validation_run":
             run_validation_stream(ctx, model, 1)
